@@ -539,11 +539,30 @@ func (g *G) next() *History {
 	k := g.r.Intn(tot)
 	for _, c := range cs {
 		if k < c.w {
-			return g.zonePass(g.nilHeader(g.emptyMethod(c.f(g, id))))
+			return g.rawKey(g.zonePass(g.nilHeader(g.emptyMethod(c.f(g, id)))))
 		}
 		k -= c.w
 	}
 	return g.genGrid(id)
+}
+
+// rawKey: in one history out of twenty-five (one out of six for C16) some requests carry a header field under a map
+// key that is not canonical (direct map assignment). The map is the caller's: whatever the cache makes of such a
+// field, it does not rewrite the caller's keys.
+func (g *G) rawKey(h *History) *History {
+	p := 0.04
+	if g.prop == "C16" {
+		p = 0.17
+	}
+	if !g.chance(p) {
+		return h
+	}
+	for i := range h.Ops {
+		if h.Ops[i].Op == "req" && g.chance(0.6) {
+			h.Ops[i].RawKey = true
+		}
+	}
+	return h
 }
 
 // emptyMethod: net/http documents that a client request whose Method is the empty string is a GET. In one
